@@ -59,7 +59,7 @@ def view (n : Node) : String :=
   ",".intercalate sw ++ ";" ++ " ".intercalate fo
 
 def dump (n : Node) : String :=
-  s!"P={showPower n.power},{n.startCd},{n.shutCd},{showBool n.resetting},{n.scanCd} S=" ++
+  s!"P={showPower n.power},{n.startCd},{n.shutCd},{showBool n.resetting},{n.scanCd},{n.redCd} S=" ++
     " ".intercalate (n.sws.map showSw) ++ " F=" ++ " ".intercalate (n.folders.map showFolder) ++ " V=" ++ view n
 
 def init : DNode :=
@@ -90,6 +90,7 @@ def parseOp : List String → Option Op
   | ["startup"] => some .startup
   | ["nodereset"] => some .reset
   | ["osscan"] => some .osScan
+  | ["redscan"] => some .redScan
   | ["sw", k, name, r] => do some (.sw (← parseKind k) name (← parseSwReq r))
   | ["swset", name, h] => do some (.swSet name (← parseExt h))
   | ["appinstall", name] => some (.appInstall name)
@@ -106,13 +107,13 @@ def parseOp : List String → Option Op
 
 def setup (n : Node) (ws : List String) : Option (Node × String) :=
   match ws with
-  | ["node", p, sd, sc, hd, hc, rs, nd, nc] =>
-    match parsePower p, sd.toInt?, sc.toInt?, hd.toInt?, hc.toInt?, parseBool rs, nd.toInt?, nc.toInt? with
-    | some p, some sd, some sc, some hd, some hc, some rs, some nd, some nc =>
+  | ["node", p, sd, sc, hd, hc, rs, nd, nc, rc] =>
+    match parsePower p, sd.toInt?, sc.toInt?, hd.toInt?, hc.toInt?, parseBool rs, nd.toInt?, nc.toInt?, rc.toInt? with
+    | some p, some sd, some sc, some hd, some hc, some rs, some nd, some nc, some rc =>
       let n' : Node := { n with power := p, startDur := sd, startCd := sc, shutDur := hd, shutCd := hc, resetting := rs,
-                                scanDur := nd, scanCd := nc }
+                                scanDur := nd, scanCd := nc, redCd := rc }
       some (n', "ok")
-    | _, _, _, _, _, _, _, _ => some (n, "bad-op")
+    | _, _, _, _, _, _, _, _, _ => some (n, "bad-op")
   | ["addsw", name, k, op, a, v, fd, fc, ad, ac] =>
     match parseKind k, parseOpSt op, parseSwH a, parseSwH v, fd.toInt?, parseOpt String.toInt? fc, ad.toInt?,
           parseOpt String.toInt? ac with
